@@ -465,7 +465,7 @@ func runCase(w *hx.W, rng *rand.Rand, cfg capCfg) {
 		sc := cls()
 		s1 := genStr(rng, sc)
 		setReacts(srv, rng, 3)
-		switch rng.Intn(9) {
+		switch rng.Intn(13) {
 		case 0:
 			note("SEARCH HEADER/BODY <%s>", sc)
 			wait("SEARCH", func() error {
@@ -508,6 +508,39 @@ func runCase(w *hx.W, rng *rand.Rand, cfg capCfg) {
 				_, err := ac.Wait()
 				return err
 			})
+		case 9:
+			note("DELETE/UNSUBSCRIBE <%s>", sc)
+			wait("DELETE", c.Delete(s1+"d").Wait)
+			wait("UNSUBSCRIBE", c.Unsubscribe(s1+"u").Wait)
+		case 10:
+			note("GETMETADATA/SETMETADATA mailbox, entry and value <%s>", sc)
+			max := uint32(1024)
+			wait("GETMETADATA", func() error {
+				_, err := c.GetMetadata(s1+"g", []string{"/private/comment", "/shared/" + genStr(rng, "ascii")}, &imapclient.GetMetadataOptions{MaxSize: &max, Depth: imapclient.GetMetadataDepthInfinity}).Wait()
+				return err
+			})
+			val := []byte(genStr(rng, cls()))
+			wait("SETMETADATA", c.SetMetadata(s1+"g", map[string]*[]byte{"/private/comment": &val, "/private/gone": nil}).Wait)
+		case 11:
+			note("GETQUOTA/GETQUOTAROOT/SETQUOTA <%s>", sc)
+			wait("GETQUOTA", func() error { _, err := c.GetQuota(s1 + "q").Wait(); return err })
+			wait("GETQUOTAROOT", func() error { _, err := c.GetQuotaRoot(s1 + "r").Wait(); return err })
+			wait("SETQUOTA", c.SetQuota(s1+"q", map[imap.QuotaResourceType]int64{imap.QuotaResourceStorage: 512}).Wait)
+		case 12:
+			note("SORT/UID SORT/THREAD/UID THREAD with <%s>", sc)
+			crit := &imap.SearchCriteria{Text: []string{s1}, Header: []imap.SearchCriteriaHeaderField{{Key: "Subject", Value: genStr(rng, cls())}}}
+			so := &imapclient.SortOptions{SearchCriteria: crit, SortCriteria: []imapclient.SortCriterion{{Key: imapclient.SortKeyDate, Reverse: true}, {Key: imapclient.SortKeySubject}}}
+			to := &imapclient.ThreadOptions{Algorithm: imap.ThreadReferences, SearchCriteria: crit}
+			switch rng.Intn(4) {
+			case 0:
+				wait("SORT", func() error { _, err := c.Sort(so).Wait(); return err })
+			case 1:
+				wait("UID SORT", func() error { _, err := c.UIDSort(so).Wait(); return err })
+			case 2:
+				wait("THREAD", func() error { _, err := c.Thread(to).Wait(); return err })
+			case 3:
+				wait("UID THREAD", func() error { _, err := c.UIDThread(to).Wait(); return err })
+			}
 		case 8:
 			note("COPY/MOVE to <%s>", sc)
 			wait("COPY", func() error { _, err := c.Copy(imap.SeqSetNum(1), s1+"c").Wait(); return err })
